@@ -17,7 +17,7 @@ DECLS = [
     ("u24", G.U24, {"LO": 1, "HI": 0x800000}, False), ("i32", G.I32, {"MIN": -(1 << 31), "MAX": (1 << 31) - 1}, False),
     ("u64", G.U64, {"BIG": 1 << 63, "ONE": 1}, False), ("i16", G.I16, {"M": -2, "P": 2}, False),
     ("f8", G.U8, {"X": 1, "Y": 2, "W": 8}, True), ("f16", G.U16, {"A": 1, "B": 0x8000}, True),
-    ("f32combo", G.U32, {"A": 1, "B": 2, "AB": 3}, True), ("f8zero", G.U8, {"NONE": 0, "X": 4}, True),
+    ("f32combo", G.U32, {"A": 1, "B": 2, "AB": 3}, True), ("fs8", G.I8, {"A": 1, "B": 2}, True), ("f8zero", G.U8, {"NONE": 0, "X": 4}, True),
 ]
 
 
@@ -47,6 +47,7 @@ def make(case):
             ctx.check("every underlying value parses", False, H.classify(ex))
             return
         ref = R.decode_int(data, 0, w, base[2], big)
+        ctx.inputs["neg"] = ref < 0
         ctx.observe("value", e.value)
         ctx.check("E(bytes).value == underlying integer read", e.value == ref)
         ctx.check("parsed object compares equal to its integer value", e == ref)
@@ -82,6 +83,7 @@ def make_struct(case):
             return
         ref = H.ref_parser(ctx, cfg)
         rv, _ = ref.parse(T, data, 0)
+        ctx.inputs["neg"] = R.Or(rv["e"] < 0, rv["arr"][0] < 0, rv["arr"][1] < 0)
         ctx.check("member and array elements carry the underlying integers", R.value_eq(T, v, rv))
         try:
             o = v.dumps()
@@ -104,6 +106,7 @@ def make_eq(case):
 
     def run(ctx):
         a, b = ctx.int("a", lo, hi), ctx.int("b", lo, hi)
+        ctx.inputs["neg"] = R.Or(a < 0, b < 0)
         ea, eb, oa = E(a), E(b), O(a)
         ctx.observe("a", ea.value)
         ctx.check("E(a) == E(b) <=> a == b", R.And(R.Implies(ea == eb, a == b), R.Implies(a == b, ea == eb)))
